@@ -207,6 +207,32 @@ pub mod sched {
         YIELD_MASK.store(mask, Ordering::SeqCst);
     }
 
+    static AUTO: AtomicBool = AtomicBool::new(false);
+    static BACKGROUND: Mutex<Vec<(&'static str, usize, ThreadId)>> = Mutex::new(Vec::new());
+
+    /// When on, the store's own threads (flush workers, coordinator, sweeper)
+    /// register themselves with the controller when they start.
+    pub fn auto_register(on: bool) {
+        AUTO.store(on, Ordering::SeqCst);
+        BACKGROUND.lock().unwrap_or_else(|e| e.into_inner()).clear();
+    }
+
+    pub fn register_background(role: &'static str, index: usize) {
+        if !AUTO.load(Ordering::SeqCst) {
+            return;
+        }
+        let id = std::thread::current().id();
+        BACKGROUND
+            .lock()
+            .unwrap_or_else(|e| e.into_inner())
+            .push((role, index, id));
+        register_current();
+    }
+
+    pub fn background_threads() -> Vec<(&'static str, usize, ThreadId)> {
+        BACKGROUND.lock().unwrap_or_else(|e| e.into_inner()).clone()
+    }
+
     pub fn register_current() {
         if let Some(s) = lock().as_mut() {
             s.registered.insert(std::thread::current().id());
